@@ -42,9 +42,9 @@ func (p Packet) String() string {
 	return fmt.Sprintf("%c%s%q", p.Type, k, d)
 }
 
-func Text(t byte, s string) Packet  { return Packet{Type: t, Data: []byte(s)} }
-func Bin(t byte, b []byte) Packet   { return Packet{Type: t, Data: b, Binary: true} }
-func validType(t byte) bool         { return t >= '0' && t <= '6' }
+func Text(t byte, s string) Packet { return Packet{Type: t, Data: []byte(s)} }
+func Bin(t byte, b []byte) Packet  { return Packet{Type: t, Data: b, Binary: true} }
+func validType(t byte) bool        { return t >= '0' && t <= '6' }
 func (p Packet) Equal(q Packet) bool {
 	return p.Type == q.Type && p.Binary == q.Binary && bytes.Equal(p.Data, q.Data)
 }
